@@ -309,6 +309,21 @@ where
             }
             Err(p) => l.panic_violation(&p, json!({"validity_set": "first + last + window names"})),
         }
+        // whatever a window name in the set means, the context type itself and the MinidumpContext wrapped around
+        // it are two views of one register file and one validity set: they answer every name alike
+        let mc = MinidumpContext { raw: (k.wrap)(ctx.clone()), valid: valid.clone() };
+        for q in C::REGISTERS.iter().copied().chain(k.extra.iter().map(|a| a.0)) {
+            l.eval();
+            match guard(|| (ctx.get_register(q, &valid).map(|v| v.into()), mc.get_register(q))) {
+                Ok((a, b)) => {
+                    let a: Option<u64> = a;
+                    if a != b {
+                        fail(l, "valid-mixed-extra-trait-vs-dispatch", format!("validity set with window names: {q} reads {a:x?} through the context type and {b:x?} through MinidumpContext"));
+                    }
+                }
+                Err(p) => l.panic_violation(&p, json!({"validity_set": "first + last + window names", "name": q})),
+            }
+        }
     }
     // full set, spelled canonically: exactly REGISTERS are valid, aliases included
     let full: HashSet<&'static str> = C::REGISTERS.iter().copied().collect();
